@@ -1,11 +1,46 @@
 # C19 -- the STL-free containers behave like their std counterparts over any history
 META = dict(
     level='proof',
-    level_text='TODO',
-    level_note='TODO',
-    trusted_base=[],
-    assumptions=[],
-    not_covered=[],
+    level_text=('Classical data-structure verification with induction over the history: per public operation a contract '
+                '"requires Inv(old) ensures Inv(new) and view(new) == std_op(view(old), args)" over the whole element view (ghost position g) '
+                'is discharged by CBMC (dfcc) on the C rendering of the instantiated member functions; no code loop is unwound (copy loops of '
+                'static_vector::operator=, vector copy-ctor / operator= are closed by loop contracts). static_vector<size_t,8> (Inv size_<=8; '
+                'default/sized/variadic ctor, copy, assign, self-assign, resize incl. refusal beyond capacity, push_back incl. refusal, element '
+                'write/read, size, data), array<size_t,4>, maybe<size_t>, either<size_t,int> (tag invariant, ctor/copy/assign/self-assign/'
+                'value-assign/has_value/operator*/index/get_if), tuple and tuplev2 (get<I> after construct/copy/assign/write) take arbitrary '
+                'invariant-satisfying objects by value. vector<size_t> (heap): every operation (default/sized/copy ctor, dtor, operator= incl. '
+                'self, resize, push_back, at/[]/size) is proved against the heap invariant "buffer_ is a live separate block of buffer_size_>=1 '
+                'elements, size_<=buffer_size_" stated with is_fresh / was_freed (old block freed exactly when replaced, dtor frees once), plus '
+                'ctor..dtor bracket scenarios under --memory-leak-check / --pointer-check (leak, double free, use after free, out of bounds). '
+                'Seven genuine deviations from std are recorded as known findings and excluded by region.'),
+    level_note=('Trusted: clang AST, cxx2c rendering (incl. new: anonymous unions, CRTP base-to-derived casts, scalar placement new, scope-exit '
+                'destructor calls, malloc/free/memcpy passed to CBMC\'s models), CBMC 6.11 dfcc. Vector sizes are bounded by the precondition '
+                'n <= 2^20 elements and malloc is assumed to succeed. The by-value element type is size_t/int only (trivial T); '
+                'the per-operation vector contracts assume the push_back argument does not alias the vector\'s own storage (the aliasing case '
+                'is a recorded finding). Induction over histories is the usual meta-argument from the per-operation contracts.'),
+    trusted_base=[
+        'clang 14 front end (AST of the instantiated templates)', 'engine/cxx2c.py (C++ AST -> C rendering)',
+        'cbmc 6.11.0 / goto-instrument --dfcc (contract instrumentation, is_fresh / was_freed / frees semantics, SAT back end)',
+        'CBMC models of malloc / free / memcpy (malloc never returns NULL: --no-malloc-may-fail)',
+        'by-value entry wrappers verif_* in inst/c19.cpp (object in, object out); C++ references are valid; distinct parameters do not alias unless the wrapper says so (self-assignment wrappers)',
+        'Inv(new) of a vector is stated as "same block and capacity as before, or is_fresh(new block)"; that this re-establishes the is_fresh precondition of the next operation is the inductive meta-step',
+    ],
+    assumptions=[
+        'instantiations: static_vector<size_t,8>, array<size_t,4>, vector<size_t>, maybe<size_t>, either<size_t,int>, tuple/tuplev2<size_t,int,size_t>; -DNDEBUG, STL enabled',
+        'utl::vector: sizes and capacities <= VEC_MAX = 2^20 elements (so that sizeof(T)*n cannot wrap; plays the role of max_size()); malloc succeeds',
+        'utl::vector per-operation invariant uses buffer_size_ >= 1, i.e. excludes the state created by vector(size_type 0) (known finding: leaked block)',
+        'ghost g (observed position) and vg (its pre-state value) are bound in preconditions; ghost cells are functional definitions',
+        'spec predicate loop sv_dirty (known-finding region) is unwound 8 times (spec evaluation bound, not a code loop)',
+    ],
+    not_covered=[
+        'small_vector (either<static_vector,vector> switch) -- not extracted',
+        'non-trivial element types: maybe/either specialisations with placement-new of records and user-provided ~either(); only trivial T (size_t/int) is verified',
+        'vector / maybe / either / tuple of element types other than size_t / int (double etc.)',
+        'malloc failure (utl::vector has no error handling for a NULL block)',
+        'begin()/end()/free-function size/begin/end of the containers, static_vector::get<I>, tuple sizes other than 3, tuple converting constructors',
+        'destructors of temporaries and implicit (member-wise) destructors are not emitted by the translator; the wrappers only use named vector locals',
+        'NMTOOLS_DISABLE_STL configuration (the utl types are verified as compiled in the default configuration)',
+    ],
 )
 def U(name, clause, **kw):
     return Unit(name, 'c19', 'verif_' + name.replace('.', '_'), clause=clause, **kw)
@@ -15,9 +50,9 @@ MB = 'utl::maybe == std::optional (trivial T)'
 EI = 'utl::either == std::variant (trivial alternatives)'
 TP = 'utl::tuple / tuplev2 == std::tuple'
 VE = 'utl::vector == std::vector; copies independent, self-assignment harmless, no leak / double free / out-of-bounds access'
-HEAP = dict(extra=['--memory-leak-check'], gi_extra=['--no-malloc-may-fail'])
+HEAP = dict(extra=['--memory-leak-check'], gi_extra=['--no-malloc-may-fail'], timeout=900)
 VO = 'utl::vector: every operation preserves the representation invariant and transforms the element sequence like std::vector'
-HEAPOP = dict(gi_extra=['--no-malloc-may-fail'])
+HEAPOP = dict(gi_extra=['--no-malloc-may-fail'], timeout=900)
 UNITS = [
     U('sv.default', SV), U('sv.sized', SV), U('sv.variadic', SV), U('sv.copy', SV), U('sv.assign', SV), U('sv.self_assign', SV),
     U('sv.resize', SV), U('sv.resize_fill', SV, unwind=10), U('sv.push_back', SV), U('sv.write', SV), U('sv.write_at', SV),
@@ -31,7 +66,7 @@ UNITS = [
     U('ei.assign_left', EI), U('ei.assign_right', EI), U('ei.probe', EI), U('ei.probe_free', EI),
     U('vec.sized', VE, **HEAP), U('vec.sized_init', VE, **HEAP), U('vec.push5', VE, **HEAP), U('vec.resize', VE, **HEAP),
     U('vec.resize_fill', VE, **HEAP), U('vec.shrink_grow', VE, **HEAP), U('vec.resize_push', VE, **HEAP),
-    U('vec.zero_push', VE, **HEAP), U('vec.variadic', VE, **HEAP),
+    U('vec.zero_push', VE, **HEAP), U('vec.push_alias', VE, **HEAP), U('vec.variadic', VE, **HEAP),
     U('vec.copy', VE, **HEAP), U('vec.assign', VE, **HEAP), U('vec.self_assign', VE, **HEAP),
     # per-operation contracts over the representation invariant (induction over histories); heap shape via is_fresh / was_freed
     Unit('vecop.resize', 'c19', 'nmtools::utl::vector::resize', clause=VO, **HEAPOP),
